@@ -571,6 +571,8 @@ package gmars
 //@   ensures [C04] forall j :: 0 <= j && j < s.warriorCount && (result != nil || j != wi) ==> s.warriors[j].state == old(s.warriors[j].state)
 //@   ensures [C04] result == nil ==> old(s.warriors[wi].state) != WarriorAlive
 //@   ensures [C02] result == nil ==> s.warriors[wi].pq.size == s.maxProcs
+// the spawn report names the warrior and the address its code was loaded at (not its entry point)
+//@   ensures [C15] result == nil ==> s.lastType == WarriorSpawn && s.lastW == wi && s.lastAddr == startOffset % s.m
 // loading wraps modulo the core size: the code lands at (startOffset + i) % m (C12: any offset congruent modulo the core size gives the same core)
 //@   ensures [C12] result == nil && len(s.warriors[wi].data.Code) <= s.m && startOffset + len(s.warriors[wi].data.Code) < 18446744073709551616 ==> (forall i :: 0 <= i && i < len(s.warriors[wi].data.Code) ==> s.mem[(startOffset + i) % s.m] == s.warriors[wi].data.Code[i])
 //@   ensures [C13] result == nil && startOffset + s.warriors[wi].data.Start < 18446744073709551616 ==> qAt(s.warriors[wi].pq, 0) == (startOffset + s.warriors[wi].data.Start) % s.m
@@ -653,7 +655,7 @@ package gmars
 //@   modifies s.warriors[*].pq.queue[*], s.warriors[*].pq.start, s.warriors[*].pq.end, s.warriors[*].pq.length
 //@   ensures [C04] simInv(s)
 //@   ensures [C02][C13] old(cycleGuard(s)) ==> result == 0 && memSame(s) && s.cycleCount == old(s.cycleCount) && s.warriorLivingCount == old(s.warriorLivingCount)
-//@   ensures [C02] !old(cycleGuard(s)) ==> (s.cycleCount == old(s.cycleCount) + 1 && result == s.warriorLivingCount)
+//@   ensures [C02][C13] !old(cycleGuard(s)) ==> (s.cycleCount == old(s.cycleCount) + 1 && result == s.warriorLivingCount)
 //@      || (s.cycleCount == old(s.cycleCount) && s.warriorCount > 1 && result == 1 && s.warriorLivingCount == 1)
 //@   ensures [C15][C04] s.wtermCount - old(s.wtermCount) == old(s.warriorLivingCount) - s.warriorLivingCount
 // living-count discipline (C04): the count drops by exactly the number of warriors that went from alive to dead; nobody becomes alive
